@@ -218,3 +218,73 @@ func VerifC00_Vacuous_BAD() {
 	zz.Assume(x > 5 && x < 3)
 	zz.Reach("never")
 }
+
+type counter struct {
+	mu sync.Mutex
+	n  int
+	m  map[string]int
+}
+
+func (c *counter) incLocked()   { c.mu.Lock(); c.n++; c.m["k"]++; c.mu.Unlock() }
+func (c *counter) incUnlocked() { c.n++ }
+func (c *counter) mapUnlocked() { c.m["k"]++ }
+func (c *counter) get() int     { return c.n }
+func (c *counter) set5()        { c.mu.Lock(); c.n = 5; c.mu.Unlock() }
+
+//verif:opts race
+func VerifC00_RaceField_BAD() {
+	c := &counter{m: map[string]int{}}
+	var wg sync.WaitGroup
+	for i := 0; i < 2; i++ {
+		wg.Add(1)
+		go func() { defer wg.Done(); c.incUnlocked() }()
+	}
+	wg.Wait()
+}
+
+//verif:opts race
+func VerifC00_RaceMap_BAD() {
+	c := &counter{m: map[string]int{}}
+	var wg sync.WaitGroup
+	for i := 0; i < 2; i++ {
+		wg.Add(1)
+		go func() { defer wg.Done(); c.mapUnlocked() }()
+	}
+	wg.Wait()
+}
+
+//verif:opts race
+func VerifC00_NoRaceMutex_OK() {
+	c := &counter{m: map[string]int{}}
+	var wg sync.WaitGroup
+	for i := 0; i < 2; i++ {
+		wg.Add(1)
+		go func() { defer wg.Done(); c.incLocked() }()
+	}
+	wg.Wait()
+	c.incUnlocked() // ordered after both by the WaitGroup
+	zz.Assert(c.n == 3, "three increments")
+}
+
+//verif:opts race
+func VerifC00_NoRaceChan_OK() {
+	c := &counter{m: map[string]int{}}
+	ch := make(chan struct{})
+	go func() { c.incUnlocked(); ch <- struct{}{} }()
+	<-ch
+	c.incUnlocked()
+	done := make(chan struct{})
+	go func() { c.incUnlocked(); close(done) }()
+	<-done
+	c.incUnlocked()
+	zz.Assert(c.n == 4, "four increments")
+}
+
+//verif:opts race
+func VerifC00_RaceReadWrite_BAD() {
+	c := &counter{m: map[string]int{}}
+	done := make(chan struct{})
+	go func() { c.set5(); close(done) }()
+	_ = c.get() // unsynchronised read, possibly before the write
+	<-done
+}
